@@ -90,6 +90,7 @@ class SoftwareSwitchBase (object):
 
     self._lookup_count = 0
     self._matched_count = 0
+    self._in_flow_actions = False
 
     self.log = logging.getLogger(self.name)
     self._connection = None
@@ -517,7 +518,12 @@ class SoftwareSwitchBase (object):
     if entry is not None:
       self._matched_count += 1
       entry.touch_packet(len(packet))
-      self._process_actions_for_packet(entry.actions, packet, in_port)
+      was_in_flow_actions = self._in_flow_actions
+      self._in_flow_actions = True
+      try:
+        self._process_actions_for_packet(entry.actions, packet, in_port)
+      finally:
+        self._in_flow_actions = was_in_flow_actions
     else:
       # no matching entry
       if port.config & OFPPC_NO_PACKET_IN:
@@ -680,6 +686,11 @@ class SoftwareSwitchBase (object):
       # Do we disable send-to-controller when performing this?
       # (Currently, there's the possibility that a table miss from this
       # will result in a send-to-controller which may send back to table...)
+      if self._in_flow_actions:
+        # OFPP_TABLE is only valid in packet-outs; from a flow entry it
+        # would look the packet up again forever.
+        self.log.warn("Dropping packet sent to OFPP_TABLE by a flow entry")
+        return
       self.rx_packet(packet, in_port)
     else:
       self.log.warn("Unsupported virtual output port: %d", out_port)
